@@ -23,4 +23,5 @@ func init() {
 	register("C18", "exploration", C18)
 	register("C06", "exploration", C06)
 	register("C17", "exploration", C17)
+	register("C01", "exploration", C01)
 }
